@@ -590,3 +590,81 @@ def ws_control_under_faults(own=True):
                   ("quiesce",), ("eof", 1), ("eof", 0), ("eof", 2), ("quiesce",)]
             out.append(Scenario(st, name="outside-model:ws-control-%s-%s-%s" % (fname, mode.replace(",", "_").replace(":", "_"), "owner" if own else "subscriber")))
     return out
+
+
+def timeout_spellings():
+    """the `timeout` member of set/call/add in other spellings and given twice: every handler reads the member the way it
+    reads all others (first match, any case), so precedence and refusals follow that member"""
+    out = []
+    forms = [[("Timeout", 0.25)], [("TIMEOUT", 0.25)], [("timeouT", 0.25), ("timeout", 2.0)], [("timeout", 2.0), ("TIMEOUT", 0.25)],
+             [("TIMEOUT", True), ("timeout", 1.0)], [("Timeout", 0.0001)], [("Timeout", "x")], [("timeout", 0.5)]]
+    for i, tm in enumerate(forms):
+        for tr in ("raw", "ws"):
+            st = [("connect", 0, "raw", "local6"), ("connect", 1, tr, "remote6"),
+                  ("msg", 0, obj(("method", "add"), ("params", obj(*([("path", "e"), ("value", 1)] + tm))), ("id", 1))),
+                  ("msg", 0, obj(method="add", params=obj(path="s", value=1, timeout=3), id=2)),
+                  ("msg", 0, obj(method="add", params=obj(path="m"), id=3)),
+                  ("msg", 1, obj(("method", "set"), ("params", obj(*([("path", "s"), ("value", 2)] + tm))), ("id", "r1"))),
+                  ("msg", 1, obj(("method", "call"), ("params", obj(*([("path", "m")] + tm))), ("id", "r2"))),
+                  ("msg", 1, obj(method="set", params=obj(path="e", value=5), id="r3")),
+                  ("advance", 300000000), ("advance", 800000000), ("advance", 1500000000), ("advance", 4 * 10 ** 9),
+                  ("quiesce",), ("eof", 1), ("eof", 0), ("quiesce",)]
+            out.append(Scenario(st, name="timeout-spellings-%d-%s" % (i, tr)))
+    return out
+
+
+LOCKED_SENTINEL = "\x01never-sent-by-any-scenario\x02"
+
+
+def locked_accounts():
+    """accounts whose stored password field is not a hash any password produces (locked `*`, `!`, empty, a bare salt, a
+    truncated hash): no password authenticates them, on any transport, and a failed attempt changes nothing"""
+    out = []
+    allg = ["g0", "g1"]
+    stored = ["*", "!", "", "$6$verifsalt$", "$6$verifsalt$abc", "x", "*LK*"]
+    for i, sf in enumerate(stored):
+        users = [
+            {"name": "root", "password": "toor!pw", "auth": obj(fetchGroups=allg, setGroups=allg, callGroups=allg), "readonly": False, "admin": True},
+            {"name": "locked", "password": LOCKED_SENTINEL, "stored": sf, "auth": obj(fetchGroups=allg, setGroups=allg, callGroups=allg), "readonly": False, "admin": True},
+        ]
+        for tr in ("raw", "ws"):
+            st = [("connect", 0, "raw", "local6"), ("connect", 1, tr, "remote6"),
+                  ("msg", 0, obj(method="authenticate", params=obj(user="root", password="toor!pw"), id=1)),
+                  ("msg", 0, obj(method="add", params=obj(path="s", value=1, access=obj(fetchGroups=["g0"], setGroups=["g1"])), id=2)),
+                  ("msg", 0, obj(method="add", params=obj(path="m", access=obj(fetchGroups=["g1"], callGroups=["g0"])), id=3))]
+            n = 10
+            for pw_try in ("anything", "", sf, "*", "toor!pw", "x" * 40):
+                st.append(("msg", 1, obj(method="authenticate", params=obj(user="locked", password=pw_try), id=n)))
+                n += 1
+            st += [("msg", 1, obj(method="get", params=obj(), id=n)),
+                   ("msg", 1, obj(method="set", params=obj(path="s", value=2), id=n + 1)),
+                   ("msg", 1, obj(method="call", params=obj(path="m"), id=n + 2)),
+                   ("msg", 1, obj(method="fetch", params=obj(id="f"), id=n + 3)),
+                   ("msg", 1, obj(method="passwd", params=obj(user="root", password="owned"), id=n + 4)),
+                   ("msg", 0, obj(method="change", params=obj(path="s", value=3), id=4)),
+                   ("quiesce",), ("eof", 1), ("eof", 0), ("quiesce",)]
+            out.append(Scenario(st, users=users, name="locked-account-%d-%s" % (i, tr)))
+    return out
+
+
+def long_paths():
+    """paths and values longer than 255 and than 65535 bytes (build with a large message size): every operation names the
+    element by its whole path"""
+    out = []
+    for L in (70000, 65536, 65539, 65535, 300):
+        long = "a" * L
+        pre = long[:L % 65536] if L >= 65536 else long[:L % 256]
+        for tr in ("raw", "ws"):
+            st = [("connect", 0, "raw", "local6"), ("connect", 1, tr, "remote6"),
+                  ("msg", 0, obj(method="add", params=obj(path=long, value=1), id=1)),
+                  ("msg", 1, obj(method="add", params=obj(path=long, value=2), id=1)),
+                  ("msg", 0, obj(method="add", params=obj(path=pre or "p", value=3), id=2)),
+                  ("msg", 0, obj(method="remove", params=obj(path=pre or "p"), id=3)),
+                  ("msg", 1, obj(method="add", params=obj(path=long, value=4), id=2)),
+                  ("msg", 0, obj(method="change", params=obj(path=long, value="v" * 1000), id=4)),
+                  ("msg", 0, obj(method="remove", params=obj(path=long), id=5)),
+                  ("msg", 1, obj(method="add", params=obj(path=long, value=5), id=3)),
+                  ("msg", 1, obj(method="get", params=obj(path=obj(startsWith="aaaa")), id=4)),
+                  ("quiesce",), ("eof", 1), ("eof", 0), ("quiesce",)]
+            out.append(Scenario(st, variant="bigmsg", name="long-paths-%d-%s" % (L, tr)))
+    return out
